@@ -1,7 +1,7 @@
 #!/bin/bash
 # usage: tools/process_round2.sh <ID> [extra check ids...]   -- for a round-2 seed dir /tmp/seed/<ID> with patchA/patchB
 ID=$1; shift; EXTRA="$@"
-for X in A B; do
+for X in A B C; do
   S=/tmp/seed/$ID
   [ -f $S/patch$X.diff ] || { echo "## $ID-$X: no patch"; continue; }
   mkdir -p $S/$X; cp $S/patch$X.diff $S/$X/patch.diff; cp $S/NOTES-$X.md $S/$X/NOTES.md 2>/dev/null
